@@ -22,7 +22,15 @@ pub enum EntryData {
 
 /// Assembles a jar. `deflate`: compress the file entries (otherwise stored).
 pub fn build_jar(entries: &[(String, EntryData)], deflate: bool) -> Vec<u8> {
+    build_jar_commented(entries, deflate, 0)
+}
+
+/// like `build_jar`, with an archive comment of `comment_len` bytes (changes the size of the file, not its entries)
+pub fn build_jar_commented(entries: &[(String, EntryData)], deflate: bool, comment_len: usize) -> Vec<u8> {
     let mut w = ZipWriter::new(Cursor::new(Vec::new()));
+    if comment_len > 0 {
+        w.set_comment("x".repeat(comment_len.min(65_000)));
+    }
     for (name, data) in entries {
         let opt = FileOptions::<()>::default()
             .last_modified_time(DateTime::default())
